@@ -359,17 +359,35 @@ def rule_disjunction(run, F, cfg):
            "the `^` / `$` anchors are emitted by the per-pattern format! inside the loop (anchors "
            "hoisted around a joined alternation would bind to the first / last alternative only)",
            config=cfg)
-    sb = cr.calls(r"RegexSetBuilder::new$")
+    # "set build sites" of compile_regex: a RegexSetBuilder chain ending in build(), written in the function itself or
+    # in a local closure it calls (`let build_set = |patterns| BytesRegexSetBuilder::new(patterns)....build()`).
+    # Each site: (block in compile_regex, rendering of the patterns it receives, regex of its result's discriminant,
+    #             the body holding the chain, block of build() in that body)
+    sites = []
+    for b, t in cr.calls(r"RegexSetBuilder::build$"):
+        nw = [t2 for b2, t2 in cr.calls(r"RegexSetBuilder::new$") if cr.dominates(b2, b) and cr.expr_call(t2)[:80] in cr.expr_operand(t["args"][0])]
+        pats = cr.vexpr_operand(nw[0]["args"][0]) if nw else "?"
+        sites.append((b, pats, r"^discr\(regex::bytes::RegexSetBuilder::build\(", cr, b))
+    for k in F.closures_of(cr.name):
+        kb = k.calls(r"RegexSetBuilder::build$")
+        if not kb:
+            continue
+        for b, t in cr.calls(r"^" + re.escape(k.name) + r"$"):
+            pats = cr.vexpr_operand(t["args"][1]) if len(t["args"]) > 1 else "?"
+            sites.append((b, pats, r"^discr\(" + re.escape(k.name) + r"\(", k, kb[0][0]))
     # the vector all per-pattern regexes are pushed into (whatever it is called)
     pv = {cr.vexpr_operand(t["args"][0]) for b, t in pushes}
-    first = [(b, t) for b, t in sb if cr.vexpr_operand(t["args"][0]) in pv]
+    pvn = next(iter(pv)) if len(pv) == 1 else "?"
+    first = [s_ for s_ in sites if pvn in s_[1] and "filter" not in s_[1]]
     ok = len(pv) == 1 and len(first) == 1
     # any further set is built only after the full set failed to compile (fallback, see invalid-member-isolated)
-    for b, t in sb:
-        if (b, t) in first:
+    fail_rx = [s_[2] for s_ in sites]
+    for s_ in sites:
+        if s_ in first:
             continue
-        c = dominating_conditions(cr, b, render=cr.vexpr_operand)
-        ok = ok and any(re.search(r"^discr\(regex::bytes::RegexSetBuilder::build\(", k) and v == 1 for k, v in c.items())
+        c = dominating_conditions(cr, s_[0], render=cr.vexpr_operand)
+        ok = ok and any(any(re.search(rx, k_) for rx in fail_rx) and v == 1 for k_, v in c.items())
+    sb = [(s_[0], None) for s_ in sites]
     # one unparsable member must not disable its fused siblings: a RegexParsingError that follows a failed SET
     # build is reached only through a per-pattern validity filter (is_ok of the single-pattern build)
     flt = []
@@ -382,20 +400,29 @@ def rule_disjunction(run, F, cfg):
     for b, i, st in cr.statements():
         if st["k"] == "assign" and st["rv"]["k"] == "agg" and st["rv"].get("variant") == "RegexParsingError":
             c = dominating_conditions(cr, b, render=cr.vexpr_operand)
-            after_set = any(re.search(r"^discr\(regex::bytes::RegexSetBuilder::build\(", k) and v == 1 for k, v in c.items())
+            after_set = any(any(re.search(rx, k_) for rx in fail_rx) and v == 1 for k_, v in c.items())
             if after_set:
                 errs.append((cr.loc(b), any(cr.dominates(fb, b) for fb in flt)))
     # every set is built with room for each of its members: the regex crate's limit on one compiled program applies to
     # the whole set, so a group of large patterns that are each fine on their own would fail to compile as a set, and
     # (all members being valid) the whole fused filter would never match
     lim = []
-    for b, t in cr.calls(r"RegexSetBuilder::build$"):
-        recv = cr.expr_operand(t["args"][0])
-        m_ = re.search(r"RegexSetBuilder::size_limit\(.*, (\(core::num::saturating_mul\(|\()?(.*)\)$", recv)
-        arg = [cr.expr_operand(t2["args"][1]) for b2, t2 in cr.calls(r"RegexSetBuilder::size_limit$") if cr.dominates(b2, b)]
-        good = bool(arg) and all(re.search(r"(saturating_mul|wrapping_mul|MulWithOverflow|Mul)", a) and re.search(r"::len\(", a)
-                                 and re.search(r"DEFAULT_REGEX_SIZE_LIMIT|10485760", a) for a in arg)
-        lim.append((cr.loc(b), good, [a[:90] for a in arg]))
+    for sb_, pats, rx, body, bb in sites:
+        t = body.blocks[bb]["t"]
+        recv = body.expr_operand(t["args"][0])
+        arg = [body.expr_operand(t2["args"][1]) for b2, t2 in body.calls(r"RegexSetBuilder::size_limit$")
+               if body.dominates(b2, bb) and body.expr_call(t2)[:60] in recv]
+        # a closure sees the limit as a captured variable of compile_regex: follow it there
+        res = []
+        for a in arg:
+            m_ = re.match(r"^up:(\w+)$", a)
+            if m_ and body is not cr:
+                ls = [l for l, nme in cr.varnames.items() if nme == m_.group(1)]
+                a = cr.expr_local(ls[0]) if ls else a
+            res.append(a)
+        good = bool(res) and all(re.search(r"(saturating_mul|wrapping_mul|MulWithOverflow|Mul)", a) and re.search(r"::len\(", a)
+                                 and re.search(r"DEFAULT_REGEX_SIZE_LIMIT|10485760", a) for a in res)
+        lim.append((cr.loc(sb_), good, [a[:90] for a in res]))
     dl = F.consts.get("regex_manager::DEFAULT_REGEX_SIZE_LIMIT", {}).get("val", {}).get("int")
     run.ob("C05.4.disjunction", "set-size-limit-scales-with-members", len(lim) >= 2 and all(g_ for _, g_, _ in lim) and (dl or 0) >= 10 * (1 << 20),
            "every RegexSet of compile_regex is built with size_limit = number of patterns x the single-regex limit "
